@@ -736,7 +736,7 @@ fn main() {
         let mut values_equal = 0u64;
         for i in 0..nfrag {
             let mut r = Rng::for_case(opts.seed ^ 0xF1A6, i);
-            let mut g = frag1::Gen { r: &mut r, env: vec![], counter: 0, blocks: i % 2 == 1, fns: i % 4 == 3, body_depth: 0, rec: i % 8 == 7 };
+            let mut g = frag1::Gen { r: &mut r, env: vec![], counter: 0, blocks: i % 2 == 1, fns: i % 4 == 3, body_depth: 0, rec: i % 8 == 7, in_field: 0 };
             let seq = g.seq(2);
             let src = frag1::src_seq(&seq);
             let unit = match compile_program(&src, &b) {
@@ -756,7 +756,11 @@ fn main() {
             let with_tail = case.chains.as_deref().map(|c| c.contains("(tail)") || c.contains("(bcall")).unwrap_or(false)
                 || case.fns.contains("(tail)")
                 || case.fns.contains("(bcall");
-            let (creq, ereq) = if with_tail {
+            let with_named = case.chains.as_deref().map(|c| c.contains("(tailn ")).unwrap_or(false) || case.fns.contains("(tailn ");
+            let (creq, ereq) = if with_named {
+                // named tail calls: Compile5 (correctness proved in C02TailN)
+                (format!("compile5 {}", case.fns), format!("eval5 60 {} {}", case.bis, case.fns))
+            } else if with_tail {
                 // `^` and builtin calls: Compile4 (correctness proved in C02Tail)
                 (format!("compile4 {}", case.fns), format!("eval4 60 {} {}", case.bis, case.fns))
             } else if with_fns {
@@ -798,6 +802,9 @@ fn main() {
                 }
                 if case.real.contains("builtin") {
                     ev.hit("fragment1.with-builtin-call");
+                }
+                if case.real.contains("tailnamed") {
+                    ev.hit("fragment1.with-named-tail-call");
                 }
                 if case.real.contains("jump-") && case.real.contains("reset") && case.real.split(' ').any(|w| w.starts_with("jump-") && w != "jump-6" && w != "jump-7" && w != "jump-13") {
                     ev.hit("fragment1.with-cleanup-block");
